@@ -938,6 +938,14 @@ def m_opt_filter(it, args, fr, callee):
     return o if it.truth(keep) else none()
 
 
+@model('Result::map', 'std::result::Result::map')
+def m_res_map(it, args, fr, callee):
+    o, f = args
+    if o.variant == 1:
+        return o
+    return ok(it.call_value(f, [o.fields[0]], fr))
+
+
 @model('Result::map_err', 'std::result::Result::map_err')
 def m_res_map_err(it, args, fr, callee):
     o, f = args
@@ -1735,6 +1743,14 @@ def m_iter_collect(it, args, fr, callee):
                 return none()
             out.append(x.fields[0])
         return some(VecV(out))
+    if h == 'Result':
+        # Result<Vec<T>, E>: first Err wins (the iterator is consumed lazily up to it; the sources mapped here are pure)
+        out = []
+        for x in items:
+            if x.variant == 1:
+                return x
+            out.append(x.fields[0])
+        return ok(VecV(out))
     raise Unsupported('collect into %s' % target)
 
 
@@ -2599,3 +2615,38 @@ def m_partial_cmp_scalar(it, args, fr, callee):
     if type(a) is Sc and type(b) is Sc and a.t in INT_W:
         return some(it.binop('Cmp', a, b))
     return NotImplemented
+
+
+@tmodel('*', 'Drop', 'drop')
+def m_drop_trait(it, args, fr, callee):
+    return UNIT
+
+
+class EntryV(object):
+    __slots__ = ('m', 'key')
+
+    def __init__(self, m, key):
+        self.m, self.key = m, key
+
+
+@model('HashMap::entry', 'std::collections::HashMap::entry', 'BTreeMap::entry')
+def m_hashmap_entry(it, args, fr, callee):
+    return EntryV(_deref_map(args[0]), args[1])
+
+
+def _entry_slot(it, e, make, fr):
+    i = map_find(it, e.m, e.key, fr)
+    if i < 0:
+        e.m.items.append((e.key, make()))
+        i = len(e.m.items) - 1
+    return EntryRef(e.m, i)
+
+
+@model('Entry::or_insert_with', 'std::collections::hash_map::Entry::or_insert_with', 'hash_map::Entry::or_insert_with')
+def m_entry_or_insert_with(it, args, fr, callee):
+    return _entry_slot(it, args[0], lambda: it.call_value(args[1], [], fr), fr)
+
+
+@model('Entry::or_insert', 'std::collections::hash_map::Entry::or_insert', 'hash_map::Entry::or_insert')
+def m_entry_or_insert(it, args, fr, callee):
+    return _entry_slot(it, args[0], lambda: args[1], fr)
